@@ -61,6 +61,11 @@ def tree_id() -> str:
     return _TREE
 
 
+class CaseTimeout(Exception):
+    """Raised by the per-case watchdog (SIGALRM). Defined here so that `python -m vf.runner` (module __main__) and
+    importers of vf.runner share ONE class."""
+
+
 class SutError(Exception):
     """An exception that escaped from the code under test (innermost frame under REPO/codelimit)."""
 
@@ -88,8 +93,6 @@ def call_sut(fn, *args, **kwargs):
 
     RecursionError / MemoryError count as SUT failures too. A CaseTimeout (watchdog) propagates.
     """
-    from vf.runner import CaseTimeout
-
     try:
         return ("ok", fn(*args, **kwargs))
     except CaseTimeout:
